@@ -136,7 +136,7 @@ CLAIMED["C33"] = {
 }
 
 CLAIMED["C19"] = {
-  "text": "Narrow structural claim: the all-pairs broadphase iterates the pre-filtered pair tables; the sweep-and-prune broadphase tests the pair-id exclusion code before every store into the pair list; explicit pairs read only pair_* parameters (indexed by the pair id) and generated pairs only geom_* parameters. The put_model formula that fills the pair table is NOT decided.",
+  "text": "Narrow structural claim: the all-pairs broadphase iterates the pre-filtered pair tables; the sweep-and-prune broadphase tests the pair-id exclusion code before every store into the pair list; explicit pairs read only pair_* parameters (indexed by the pair id) and generated pairs only geom_* parameters. On the host side only the order of the stores into the pair-id table is decided (explicit pairs are written after every filter store, so they override all geom-level filters); the boolean filter formula itself is NOT decided.",
   "note": STATIC_NOTE,
   "technique": "must-guard dominance on path conditions + field-family discipline per branch (R-GATE)",
   "design_ref": "DESIGN.md section 4 C19",
